@@ -28,6 +28,7 @@ Act(e) ==
     [] e.a = "MsgFromJson" -> AMsgFromJson
     [] e.a \in {"Copy", "MsgCopy"} -> ACopy(e.a)
     [] e.a = "MutateCopy" -> AMutateCopy
+    [] e.a = "EditDict" -> AEditDict
 
 TInit ==
   /\ tid \in 1..Len(Traces) /\ l = 1 /\ st = "run" /\ bad = {}
